@@ -19,6 +19,12 @@ package c03
 //	X<b> / N<b>   in-port b is closed / the node of branch b is closed
 //	G             the sinks answer what they hold, the requesters collect
 //
+// Fan-in: with `outs k` (2–4) there are k out-ports; steps carry the out-port: L<o>.<b>, U<o>.<b>,
+// P<o> (a new process opens out-port o).  Several out-ports feed ONE in-port (each Link registers its
+// own close hook on it), some of them also fan out to other live in-ports; the shared in-port (or its
+// node) is closed with and without requests waiting; EARLIER processes (opened before the close) and
+// LATER ones go through every feeder.  Closing the shared in-port must unlink it from EVERY feeder.
+//
 // Oracle only (Go reference).  What the statement of C03 demands:
 //   - Link / Unlink report what they did; OutPort.Links() lists exactly the in-ports that are linked
 //     and not closed, in link order – a closed in-port is no longer linked (class stale-link);
@@ -37,10 +43,14 @@ import (
 	"sync"
 	"time"
 
+	"github.com/gofrs/uuid"
 	"github.com/siyul-park/uniflow/pkg/node"
 	"github.com/siyul-park/uniflow/pkg/packet"
 	"github.com/siyul-park/uniflow/pkg/port"
 	"github.com/siyul-park/uniflow/pkg/process"
+	"github.com/siyul-park/uniflow/pkg/spec"
+	"github.com/siyul-park/uniflow/pkg/symbol"
+	"github.com/siyul-park/uniflow/pkg/types"
 
 	"verifharness/lib"
 )
@@ -48,17 +58,24 @@ import (
 type ptStep struct {
 	op byte // L U P Q H X N G
 	n  int  // branch (L U X N) or process (Q H)
+	o  int  // out-port (L U P)
 }
 
 func (s ptStep) String() string {
-	if s.op == 'P' || s.op == 'G' {
-		return string(s.op)
+	switch s.op {
+	case 'G':
+		return "G"
+	case 'P':
+		return "P" + strconv.Itoa(s.o)
+	case 'L', 'U':
+		return string(s.op) + strconv.Itoa(s.o) + "." + strconv.Itoa(s.n)
 	}
 	return string(s.op) + strconv.Itoa(s.n)
 }
 
 type ptPlan struct {
 	id     int
+	k      int // out-ports (1: the fan-out shapes; 2–4: fan-in)
 	m      int
 	nodes  []bool
 	kinds  []string // per process, in the order of the P steps: send raw
@@ -74,6 +91,9 @@ func (p *ptPlan) describe() string {
 			bs = append(bs, fmt.Sprintf("in[%d] = sink %d", b, b))
 		}
 	}
+	if p.k > 1 {
+		return fmt.Sprintf("ports: %d out-ports (fan-in), in-ports %s; requesters of the processes: %s", p.k, strings.Join(bs, ", "), strings.Join(p.kinds, " "))
+	}
 	return fmt.Sprintf("ports: one out-port, port-level fan-out to %s; requesters of the processes: %s", strings.Join(bs, ", "), strings.Join(p.kinds, " "))
 }
 
@@ -88,12 +108,13 @@ func ptScript(ss []ptStep) string {
 // ptRef is the reference state: what is linked (in order), what is closed, what every process is
 // linked to, which request every process has outstanding.
 type ptRef struct {
-	linked []int
+	linked [][]int // per out-port
 	closed []bool
 	procs  []*ptProcRef
 }
 
 type ptProcRef struct {
+	out   int
 	links []int
 	held  *ptReq
 }
@@ -103,8 +124,8 @@ type ptReq struct {
 	cells []string // per link of the process: "-" not accepted, "" awaited, else canonical answer
 }
 
-func (r *ptRef) isLinked(b int) bool {
-	for _, x := range r.linked {
+func (r *ptRef) isLinked(o, b int) bool {
+	for _, x := range r.linked[o] {
 		if x == b {
 			return true
 		}
@@ -112,10 +133,10 @@ func (r *ptRef) isLinked(b int) bool {
 	return false
 }
 
-func (r *ptRef) unlink(b int) {
-	for i, x := range r.linked {
+func (r *ptRef) unlink(o, b int) {
+	for i, x := range r.linked[o] {
 		if x == b {
-			r.linked = append(r.linked[:i:i], r.linked[i+1:]...)
+			r.linked[o] = append(r.linked[o][:i:i], r.linked[o][i+1:]...)
 			return
 		}
 	}
@@ -133,6 +154,9 @@ func ptValid(p *ptPlan) string {
 			if s.n < 0 || s.n >= p.m {
 				return bad("no such branch")
 			}
+			if s.o < 0 || s.o >= max(p.k, 1) {
+				return bad("no such out-port")
+			}
 			if closed[s.n] {
 				return bad("the in-port is already closed")
 			}
@@ -143,6 +167,9 @@ func ptValid(p *ptPlan) string {
 				closed[s.n] = true
 			}
 		case 'P':
+			if s.o < 0 || s.o >= max(p.k, 1) {
+				return bad("no such out-port")
+			}
 			busy = append(busy, false)
 		case 'Q', 'H':
 			if s.n < 0 || s.n >= len(busy) {
@@ -176,7 +203,7 @@ type ptHeldEntry struct {
 
 type ptWF struct {
 	plan  *ptPlan
-	out   *port.OutPort
+	outs  []*port.OutPort
 	ins   []*port.InPort
 	nds   []*node.OneToOneNode
 	sinks []*port.InPort
@@ -202,8 +229,11 @@ func (f *ptWF) fail(class, format string, a ...any) {
 func (f *ptWF) log(format string, a ...any) { f.trace = append(f.trace, fmt.Sprintf(format, a...)) }
 
 func ptBuild(p *ptPlan) *ptWF {
-	f := &ptWF{plan: p, out: port.NewOut(), hold: map[int]bool{}, arrCh: make(chan arrival, 64), nextV: 1,
-		ref: ptRef{closed: make([]bool, p.m)}, nds: make([]*node.OneToOneNode, p.m)}
+	f := &ptWF{plan: p, hold: map[int]bool{}, arrCh: make(chan arrival, 64), nextV: 1,
+		ref: ptRef{closed: make([]bool, p.m), linked: make([][]int, max(p.k, 1))}, nds: make([]*node.OneToOneNode, p.m)}
+	for o := 0; o < max(p.k, 1); o++ {
+		f.outs = append(f.outs, port.NewOut())
+	}
 	for b := 0; b < p.m; b++ {
 		b := b
 		sink := port.NewIn()
@@ -247,7 +277,9 @@ func (f *ptWF) cleanup() {
 		for _, pr := range f.procs {
 			pr.Exit(nil)
 		}
-		f.out.Close()
+		for _, o := range f.outs {
+			o.Close()
+		}
 		for _, nd := range f.nds {
 			if nd != nil {
 				_ = nd.Close()
@@ -261,32 +293,34 @@ func (f *ptWF) cleanup() {
 
 // checkLinks compares OutPort.Links() with the reference.
 func (f *ptWF) checkLinks(after string) {
-	var got []string
-	stale := -1
-	for _, in := range f.out.Links() {
-		b := -1
-		for i, x := range f.ins {
-			if x == in {
-				b = i
+	for o, out := range f.outs {
+		var got []string
+		stale := -1
+		for _, in := range out.Links() {
+			b := -1
+			for i, x := range f.ins {
+				if x == in {
+					b = i
+				}
+			}
+			got = append(got, strconv.Itoa(b))
+			if b >= 0 && f.ref.closed[b] {
+				stale = b
 			}
 		}
-		got = append(got, strconv.Itoa(b))
-		if b >= 0 && f.ref.closed[b] {
-			stale = b
+		var want []string
+		for _, b := range f.ref.linked[o] {
+			want = append(want, strconv.Itoa(b))
 		}
-	}
-	var want []string
-	for _, b := range f.ref.linked {
-		want = append(want, strconv.Itoa(b))
-	}
-	g, w := strings.Join(got, ","), strings.Join(want, ",")
-	if g == w {
-		return
-	}
-	if stale >= 0 {
-		f.fail("stale-link", "after %s OutPort.Links() = [%s]: in-port %d is closed and still linked – every process that opens the out-port from now on is linked to a reader of the dead port; expected [%s]", after, g, stale, w)
-	} else {
-		f.fail("links", "after %s OutPort.Links() = [%s], expected [%s] (link order)", after, g, w)
+		g, w := strings.Join(got, ","), strings.Join(want, ",")
+		if g == w {
+			continue
+		}
+		if stale >= 0 {
+			f.fail("stale-link", "after %s out[%d].Links() = [%s]: in-port %d is closed and still linked – every process that opens this out-port from now on is linked to a reader of the dead port; expected [%s]", after, o, g, stale, w)
+		} else {
+			f.fail("links", "after %s out[%d].Links() = [%s], expected [%s] (link order)", after, o, g, w)
+		}
 	}
 }
 
@@ -485,56 +519,59 @@ func (f *ptWF) release() bool {
 type ptResult struct {
 	trace, fails []string
 	relinkClosed bool // an in-port that was linked, unlinked and linked again was closed, and a process opened the out-port afterwards
+	sharedClosed bool // an in-port fed by two or more out-ports was closed, and a process opened an out-port afterwards
 }
 
 func runPorts(p *ptPlan) (res ptResult) {
 	f := ptBuild(p)
 	defer f.cleanup()
-	linkCount := make([]int, p.m)
-	unlinked := make([]bool, p.m)
-	relinked := make([]bool, p.m)
+	unlinked := map[[2]int]bool{}
+	relinked := map[[2]int]bool{}
 	closedRelinked := false
+	closedShared := false
 	for _, s := range p.script {
 		switch s.op {
 		case 'L':
-			want := !f.ref.isLinked(s.n)
-			got := f.out.Link(f.ins[s.n])
-			f.log("L%d: out.Link(in[%d]) => %v", s.n, s.n, got)
+			want := !f.ref.isLinked(s.o, s.n)
+			got := f.outs[s.o].Link(f.ins[s.n])
+			f.log("%s: out[%d].Link(in[%d]) => %v", s, s.o, s.n, got)
 			if want {
-				f.ref.linked = append(f.ref.linked, s.n)
-				linkCount[s.n]++
-				if unlinked[s.n] {
-					relinked[s.n] = true
+				f.ref.linked[s.o] = append(f.ref.linked[s.o], s.n)
+				if unlinked[[2]int{s.o, s.n}] {
+					relinked[[2]int{s.o, s.n}] = true
 				}
 			}
 			if got != want {
-				f.fail("links", "out.Link(in[%d]) returned %v, expected %v", s.n, got, want)
+				f.fail("links", "out[%d].Link(in[%d]) returned %v, expected %v", s.o, s.n, got, want)
 			}
 			f.checkLinks(s.String())
 		case 'U':
-			want := f.ref.isLinked(s.n)
-			got := f.out.Unlink(f.ins[s.n])
-			f.log("U%d: out.Unlink(in[%d]) => %v", s.n, s.n, got)
+			want := f.ref.isLinked(s.o, s.n)
+			got := f.outs[s.o].Unlink(f.ins[s.n])
+			f.log("%s: out[%d].Unlink(in[%d]) => %v", s, s.o, s.n, got)
 			if want {
-				f.ref.unlink(s.n)
-				unlinked[s.n] = true
+				f.ref.unlink(s.o, s.n)
+				unlinked[[2]int{s.o, s.n}] = true
 			}
 			if got != want {
-				f.fail("links", "out.Unlink(in[%d]) returned %v, expected %v", s.n, got, want)
+				f.fail("links", "out[%d].Unlink(in[%d]) returned %v, expected %v", s.o, s.n, got, want)
 			}
 			f.checkLinks(s.String())
 		case 'P':
 			pr := process.New()
 			i := len(f.procs)
 			f.procs = append(f.procs, pr)
-			w := f.out.Open(pr)
+			w := f.outs[s.o].Open(pr)
 			r := &requester{q: qid{0, i}, wid: i, w: w, kind: p.kinds[i], cmd: make(chan reqCmd, 16), res: make(chan reqRes, 16)}
 			f.rs = append(f.rs, r)
 			go r.loop()
-			f.ref.procs = append(f.ref.procs, &ptProcRef{links: append([]int(nil), f.ref.linked...)})
-			f.log("P: process %d opens the out-port; linked now: %v", i, f.ref.linked)
+			f.ref.procs = append(f.ref.procs, &ptProcRef{out: s.o, links: append([]int(nil), f.ref.linked[s.o]...)})
+			f.log("%s: process %d opens out-port %d; linked now: %v", s, i, s.o, f.ref.linked[s.o])
 			if closedRelinked {
 				res.relinkClosed = true
+			}
+			if closedShared {
+				res.sharedClosed = true
 			}
 		case 'Q', 'H':
 			if !f.request(s.n, s.op == 'H') {
@@ -553,11 +590,22 @@ func runPorts(p *ptPlan) (res ptResult) {
 				f.fail("panic", "%s panicked: %s", s, pmsg)
 			}
 			f.log("%s: in-port %d closed", s, s.n)
-			if relinked[s.n] && f.ref.isLinked(s.n) {
-				closedRelinked = true
+			feeders := 0
+			for o := range f.outs {
+				if f.ref.isLinked(o, s.n) {
+					feeders++
+					if relinked[[2]int{o, s.n}] {
+						closedRelinked = true
+					}
+				}
+			}
+			if feeders >= 2 {
+				closedShared = true
 			}
 			f.ref.closed[s.n] = true
-			f.ref.unlink(s.n)
+			for o := range f.outs {
+				f.ref.unlink(o, s.n)
+			}
 			for _, pr := range f.ref.procs {
 				if pr.held == nil {
 					continue
@@ -586,7 +634,7 @@ func runPorts(p *ptPlan) (res ptResult) {
 
 func genPorts(rng *lib.RNG, id int) *ptPlan {
 	m := rng.Range(2, 3)
-	p := &ptPlan{id: id, m: m}
+	p := &ptPlan{id: id, k: 1, m: m}
 	for b := 0; b < m; b++ {
 		p.nodes = append(p.nodes, rng.Chance(1, 3))
 	}
@@ -595,7 +643,7 @@ func genPorts(rng *lib.RNG, id int) *ptPlan {
 	}
 	linked := make([]bool, m)
 	closed := make([]bool, m)
-	add := func(op byte, n int) { p.script = append(p.script, ptStep{op, n}) }
+	add := func(op byte, n int) { p.script = append(p.script, ptStep{op: op, n: n}) }
 	ops := func(n int) {
 		for i := 0; i < n; i++ {
 			b := rng.Intn(m)
@@ -709,12 +757,147 @@ func genPorts(rng *lib.RNG, id int) *ptPlan {
 	return p
 }
 
+// genFanInPorts: 2–4 out-ports feed in[0] (linked in random order, with some link / unlink noise), some of
+// them also fan out to the other in-ports; EARLIER processes go through some feeders (some with a request
+// held), in[0] – or its node – is closed, then LATER processes go through every feeder and everybody sends
+// again.  Sometimes a second in-port is closed and a third round follows.
+func genFanInPorts(rng *lib.RNG, id int) *ptPlan {
+	k := rng.Range(2, 4)
+	m := rng.Range(2, 3)
+	p := &ptPlan{id: id, k: k, m: m}
+	for b := 0; b < m; b++ {
+		p.nodes = append(p.nodes, rng.Chance(1, 3))
+	}
+	linked := make([][]bool, k)
+	for o := range linked {
+		linked[o] = make([]bool, m)
+	}
+	closed := make([]bool, m)
+	link := func(o, b int) {
+		if !closed[b] {
+			p.script = append(p.script, ptStep{op: 'L', o: o, n: b})
+			linked[o][b] = true
+		}
+	}
+	unlink := func(o, b int) {
+		if !closed[b] {
+			p.script = append(p.script, ptStep{op: 'U', o: o, n: b})
+			linked[o][b] = false
+		}
+	}
+	nproc := 0
+	var held []bool
+	open := func(o int) int {
+		p.script = append(p.script, ptStep{op: 'P', o: o})
+		p.kinds = append(p.kinds, lib.Pick(rng, []string{"send", "send", "raw"}))
+		held = append(held, false)
+		nproc++
+		return nproc - 1
+	}
+	q := func(i int) {
+		if !held[i] {
+			p.script = append(p.script, ptStep{op: 'Q', n: i})
+		}
+	}
+	h := func(i int) {
+		if !held[i] {
+			p.script = append(p.script, ptStep{op: 'H', n: i})
+			held[i] = true
+		}
+	}
+	g := func() {
+		p.script = append(p.script, ptStep{op: 'G'})
+		for i := range held {
+			held[i] = false
+		}
+	}
+	tear := func(b int) {
+		if closed[b] {
+			return
+		}
+		if p.nodes[b] && rng.Bool() {
+			p.script = append(p.script, ptStep{op: 'N', n: b})
+		} else {
+			p.script = append(p.script, ptStep{op: 'X', n: b})
+		}
+		closed[b] = true
+		for o := range linked {
+			linked[o][b] = false
+		}
+	}
+	// set-up: the feeders are linked to the shared in[0] in a random order; fan-out links in between
+	order := make([]int, k)
+	for i := range order {
+		order[i] = i
+	}
+	for i := k - 1; i > 0; i-- {
+		j := rng.Intn(i + 1)
+		order[i], order[j] = order[j], order[i]
+	}
+	for _, o := range order {
+		if rng.Chance(1, 2) {
+			link(o, rng.Range(1, m-1)) // fan-out to a live in-port, linked before the shared one
+		}
+		link(o, 0)
+		if rng.Chance(1, 2) {
+			link(o, rng.Range(1, m-1))
+		}
+		if rng.Chance(1, 6) {
+			unlink(o, 0)
+			link(o, 0)
+		}
+	}
+	// earlier processes
+	for _, o := range order {
+		if rng.Chance(2, 3) {
+			i := open(o)
+			if rng.Bool() {
+				q(i)
+			}
+			if rng.Chance(1, 3) {
+				h(i)
+			}
+		}
+	}
+	tear(0)
+	if rng.Bool() {
+		g()
+	}
+	// later processes through every feeder, then everybody again
+	for o := 0; o < k; o++ {
+		q(open(o))
+	}
+	g()
+	for i := 0; i < nproc; i++ {
+		q(i)
+	}
+	if m == 3 && rng.Bool() {
+		if rng.Bool() {
+			h(rng.Intn(nproc))
+		}
+		tear(rng.Range(1, 2))
+		g()
+		for o := 0; o < k; o++ {
+			if rng.Bool() {
+				q(open(o))
+			}
+		}
+		for i := 0; i < nproc; i++ {
+			if rng.Bool() {
+				q(i)
+			}
+		}
+	}
+	return p
+}
+
 // isPortsCorpus tells whether a corpus file belongs to the ports family:
 //
 //	ports <m>
+//	outs <k>                      (optional, default 1: the number of out-ports)
 //	nodes <0|1> × m
 //	kinds <send|raw> …            (one per P step)
-//	script L0 L1 U1 L1 P Q0 H0 X1 G P Q1 Q0 …
+//	script L0 L1 U1 L1 P Q0 H0 X1 G P Q1 Q0 …      (L<b>, U<b>, P: out-port 0; else L<o>.<b>, U<o>.<b>, P<o>)
 func isPortsCorpus(path string) bool {
 	ls := lib.ReadLines(path)
 	return len(ls) > 0 && strings.HasPrefix(ls[0], "ports ")
@@ -744,11 +927,33 @@ func parsePortsCorpus(path string, id int) (p *ptPlan, err string) {
 				}
 				p.kinds = append(p.kinds, x)
 			}
+		case "outs":
+			if len(f) != 2 || (f[1] != "1" && f[1] != "2" && f[1] != "3" && f[1] != "4") {
+				return nil, "outs needs the number of out-ports (1 to 4)"
+			}
+			p.k, _ = strconv.Atoi(f[1])
 		case "script":
 			for _, t := range f[1:] {
 				s := ptStep{op: t[0]}
-				if t != "P" && t != "G" {
-					n, e := strconv.Atoi(t[1:])
+				body := t[1:]
+				switch {
+				case t == "G" || t == "P":
+				case t[0] == 'P':
+					o, e := strconv.Atoi(body)
+					if e != nil {
+						return nil, "bad step " + t
+					}
+					s.o = o
+				case (t[0] == 'L' || t[0] == 'U') && strings.Contains(body, "."):
+					ab := strings.SplitN(body, ".", 2)
+					o, e1 := strconv.Atoi(ab[0])
+					n, e2 := strconv.Atoi(ab[1])
+					if e1 != nil || e2 != nil {
+						return nil, "bad step " + t
+					}
+					s.o, s.n = o, n
+				default:
+					n, e := strconv.Atoi(body)
 					if e != nil || !strings.ContainsRune("LUQHXN", rune(t[0])) {
 						return nil, "bad step " + t
 					}
@@ -759,6 +964,9 @@ func parsePortsCorpus(path string, id int) (p *ptPlan, err string) {
 		default:
 			return nil, "unknown line " + l
 		}
+	}
+	if p.k == 0 {
+		p.k = 1
 	}
 	if p.m == 0 || len(p.nodes) != p.m {
 		return nil, "inconsistent case (ports m, m node flags)"
@@ -778,7 +986,7 @@ func ptCorpusText(p *ptPlan) string {
 			ns = append(ns, "0")
 		}
 	}
-	return fmt.Sprintf("ports %d\nnodes %s\nkinds %s\nscript %s\n", p.m, strings.Join(ns, " "), strings.Join(p.kinds, " "), ptScript(p.script))
+	return fmt.Sprintf("ports %d\nouts %d\nnodes %s\nkinds %s\nscript %s\n", p.m, max(p.k, 1), strings.Join(ns, " "), strings.Join(p.kinds, " "), ptScript(p.script))
 }
 
 // runPortsFamily runs the ports family (oracle only).
@@ -795,8 +1003,16 @@ func runPortsFamily(c *lib.Ctx, rng *lib.RNG, add func(class, what, replay strin
 			key = fmt.Sprintf("pt%d", p.id)
 			c.Hit("ports-relinked-in-port-closed-then-new-process")
 		}
+		if res.sharedClosed {
+			key = fmt.Sprintf("pt%d", p.id)
+			c.Hit("ports-fan-in-shared-in-port-closed-then-new-process")
+		}
 		c.Count(key)
-		c.Hit(fmt.Sprintf("workflow-ports-fan-out-%d", p.m))
+		if p.k > 1 {
+			c.Hit(fmt.Sprintf("workflow-ports-fan-in-%d-feeders", p.k))
+		} else {
+			c.Hit(fmt.Sprintf("workflow-ports-fan-out-%d", p.m))
+		}
 		for _, fl := range res.fails {
 			parts := strings.SplitN(fl, "\t", 2)
 			var b strings.Builder
@@ -826,4 +1042,235 @@ func runPortsFamily(c *lib.Ctx, rng *lib.RNG, add func(class, what, replay strin
 	for i := 0; i < n && !stop(); i++ {
 		one(genPorts(rng.Fork(), 4000+i))
 	}
+	nf := c.Scale(300, 3000)
+	for i := 0; i < nf && !stop(); i++ {
+		one(genFanInPorts(rng.Fork(), 8000+i))
+	}
+}
+
+// ---------------------------------------------------------------- the symbol-table route
+
+// tableFanIn: the same fan-in built by a symbol.Table.  Symbols X and Y answer requests (X with
+// payload·16 + 0 + answerBase, Y with … + 1 …); 2–3 pass-through symbols U_j reference X's in-port in
+// their specs, some of them Y's as well; everything is inserted in a random order (the table links the
+// ports).  X is freed (Table.Free) or replaced (Insert of a symbol with X's id, answering with … + 2 …):
+// Table.free does not unlink the feeders itself, it relies on the close hooks of X's in-port.
+// Afterwards no feeder's out-port may list X's old in-port, and processes – one opened before, one
+// after – through every feeder get the Join of the live answers in link order (nothing linked: the
+// pass-through node answers the request with itself).
+func tableFanIn(c *lib.Ctx, rng *lib.RNG, tries int) (fails []lib.OracleFail) {
+	for try := 0; try < tries && len(fails) == 0; try++ {
+		tb := symbol.NewTable()
+		var trace []string
+		log := func(format string, a ...any) { trace = append(trace, fmt.Sprintf(format, a...)) }
+		mk := func(id uuid.UUID, nd node.Node, ports map[string][]spec.Port) *symbol.Symbol {
+			return &symbol.Symbol{Spec: &spec.Meta{ID: id, Kind: "verif", Namespace: "default", Ports: ports}, Node: nd}
+		}
+		responder := func(b int) node.Node {
+			return node.NewOneToOneNode(func(_ *process.Process, pck *packet.Packet) (*packet.Packet, *packet.Packet) {
+				return packet.New(types.NewInt64(int64(payloadOf(pck)*foMul + b + answerBase))), nil
+			})
+		}
+		pass := func() node.Node {
+			return node.NewOneToOneNode(func(_ *process.Process, pck *packet.Packet) (*packet.Packet, *packet.Packet) {
+				return packet.New(pck.Payload()), nil
+			})
+		}
+		xid, yid := uuid.Must(uuid.NewV7()), uuid.Must(uuid.NewV7())
+		x, y := mk(xid, responder(0), nil), mk(yid, responder(1), nil)
+		nU := rng.Range(2, 3)
+		var us []*symbol.Symbol
+		var alsoY []bool
+		for j := 0; j < nU; j++ {
+			ports := []spec.Port{{ID: xid, Port: node.PortIn}}
+			ay := j == 0 || rng.Bool()
+			if ay {
+				if rng.Bool() {
+					ports = append(ports, spec.Port{ID: yid, Port: node.PortIn})
+				} else {
+					ports = append([]spec.Port{{ID: yid, Port: node.PortIn}}, ports...)
+				}
+			}
+			alsoY = append(alsoY, ay)
+			us = append(us, mk(uuid.Must(uuid.NewV7()), pass(), map[string][]spec.Port{node.PortOut: ports}))
+		}
+		all := append([]*symbol.Symbol{x, y}, us...)
+		names := []string{"X", "Y", "U0", "U1", "U2"}
+		order := make([]int, len(all))
+		for i := range order {
+			order[i] = i
+		}
+		for i := len(order) - 1; i > 0; i-- {
+			j := rng.Intn(i + 1)
+			order[i], order[j] = order[j], order[i]
+		}
+		bad := func(class, format string, a ...any) {
+			what := "symbol-table fan-in: " + fmt.Sprintf(format, a...)
+			fails = append(fails, lib.OracleFail{Class: class, What: what, Replay: strings.Join(trace, "\n") + "\n"})
+		}
+		for _, i := range order {
+			if err := tb.Insert(all[i]); err != nil {
+				bad("setup", "Insert(%s): %v", names[i], err)
+			}
+			log("Insert %s", names[i])
+		}
+		xin, yin := x.In(node.PortIn), y.In(node.PortIn)
+		// drivers and the earlier processes
+		type drv struct {
+			out *port.OutPort
+			ws  []*packet.Writer
+		}
+		var ds []*drv
+		for _, u := range us {
+			d := &drv{out: port.NewOut()}
+			d.out.Link(u.In(node.PortIn))
+			ds = append(ds, d)
+		}
+		var procs []*process.Process
+		nextV := 1
+		send := func(j int, w *packet.Writer, when string, cell func(in *port.InPort) string) {
+			v := nextV
+			nextV++
+			// reference: Join, in the link order of U_j's out-port, of the live answers
+			var cs []string
+			for _, in := range us[j].Out(node.PortOut).Links() {
+				if a := cell(in); a != "" {
+					cs = append(cs, a)
+				}
+			}
+			exp := "v" + strconv.Itoa(v) // nothing linked: the pass-through node's write is refused, the request is its own answer
+			if len(cs) > 0 {
+				exp = "v" + strings.Join(cs, ",")
+				if len(cs) > 1 {
+					exp = "V" + strings.Join(cs, ",")
+				}
+			}
+			done := make(chan *packet.Packet, 1)
+			go func() { done <- packet.Send(w, packet.New(types.NewInt64(int64(v)))) }()
+			select {
+			case pck := <-done:
+				got := canon(pck)
+				log("%s: process through U%d sends %d => %s", when, j, v, got)
+				if got != exp {
+					bad("unaffected", "%s, request %d through U%d: got %s, expected %s = Join of the answers of the symbols still linked to U%d's out-port", when, v, j, got, exp, j)
+				}
+			case <-time.After(watchdog):
+				bad("blocked", "%s, request %d through U%d: no response within %v", when, v, j, watchdog)
+			}
+		}
+		ans := func(xAlive, replaced bool, x2in *port.InPort) func(in *port.InPort) string {
+			return func(in *port.InPort) string {
+				switch {
+				case in == yin:
+					return "Y"
+				case in == xin && xAlive:
+					return "X"
+				case replaced && in == x2in:
+					return "Z"
+				}
+				return ""
+			}
+		}
+		resolve := func(f func(in *port.InPort) string, v int) func(in *port.InPort) string {
+			return func(in *port.InPort) string {
+				switch f(in) {
+				case "X":
+					return strconv.Itoa(v*foMul + 0 + answerBase)
+				case "Y":
+					return strconv.Itoa(v*foMul + 1 + answerBase)
+				case "Z":
+					return strconv.Itoa(v*foMul + 2 + answerBase)
+				}
+				return ""
+			}
+		}
+		early := process.New()
+		procs = append(procs, early)
+		for j, d := range ds {
+			w := d.out.Open(early)
+			d.ws = append(d.ws, w)
+			send(j, w, "before the teardown", resolve(ans(true, false, nil), nextV))
+		}
+		if len(fails) > 0 {
+			break
+		}
+		// the teardown
+		replace := rng.Chance(1, 3)
+		var x2in *port.InPort
+		if replace {
+			x2 := mk(xid, responder(2), nil)
+			if err := tb.Insert(x2); err != nil {
+				bad("setup", "Insert (replace X): %v", err)
+			}
+			x2in = x2.In(node.PortIn)
+			log("Insert a symbol with X's id (replaces X)")
+		} else {
+			if _, err := tb.Free(xid); err != nil {
+				bad("setup", "Free(X): %v", err)
+			}
+			log("Free X")
+		}
+		for j, u := range us {
+			for _, in := range u.Out(node.PortOut).Links() {
+				if in == xin {
+					bad("stale-link", "after X was %s U%d's out-port still lists X's closed in-port: every process that opens it from now on is linked to a reader of the dead port", map[bool]string{true: "replaced", false: "freed"}[replace], j)
+				}
+			}
+			if replace {
+				found := false
+				for _, in := range u.Out(node.PortOut).Links() {
+					found = found || in == x2in
+				}
+				if !found {
+					bad("links", "after X was replaced U%d's out-port is not linked to the new symbol's in-port", j)
+				}
+			}
+		}
+		late := process.New()
+		procs = append(procs, late)
+		for j, d := range ds {
+			w := d.out.Open(late)
+			send(j, w, "process opened after the teardown", resolve(ans(false, replace, x2in), nextV))
+		}
+		// the earlier process again: its writers in U_j's out-ports keep the readers they were linked to
+		for j, d := range ds {
+			v := nextV
+			nextV++
+			var cs []string
+			done := make(chan *packet.Packet, 1)
+			go func() { done <- packet.Send(d.ws[0], packet.New(types.NewInt64(int64(v)))) }()
+			if alsoY[j] {
+				cs = append(cs, strconv.Itoa(v*foMul+1+answerBase))
+			}
+			exp := "v" + strconv.Itoa(v)
+			if len(cs) > 0 {
+				exp = "v" + cs[0]
+			}
+			select {
+			case pck := <-done:
+				got := canon(pck)
+				log("process opened before the teardown, through U%d, sends %d => %s", j, v, got)
+				if got != exp {
+					bad("unaffected", "process opened before the teardown, request %d through U%d: got %s, expected %s (X is gone; Y's answer if U%d feeds Y, else the request itself)", v, j, got, exp, j)
+				}
+			case <-time.After(watchdog):
+				bad("blocked", "process opened before the teardown, request %d through U%d: no response within %v", v, j, watchdog)
+			}
+		}
+		c.Hit("table-fan-in")
+		if replace {
+			c.Hit("table-fan-in-replace")
+		}
+		c.Count("")
+		lib.Safe(func() {
+			for _, p := range procs {
+				p.Exit(nil)
+			}
+			for _, d := range ds {
+				d.out.Close()
+			}
+			_ = tb.Close()
+		})
+	}
+	return
 }
